@@ -219,6 +219,23 @@ theorem lookup_delKey_ne {α : Type} (db : List (String × α)) (k n : String) (
   have := lookup_filter_key (fun x => decide (x ≠ k)) db n
   simpa [h] using this
 
+theorem lookup_setKey {α : Type} (db : List (String × α)) (k n : String) (v : α) :
+    lookup (setKey db k v) n = if k = n then some v else lookup db n := by
+  induction db with
+  | nil => simp [setKey, lookup]
+  | cons p rest ih =>
+    obtain ⟨k', v'⟩ := p
+    unfold setKey
+    by_cases h : k' = k
+    · subst h
+      by_cases h2 : k' = n
+      · simp [lookup, h2]
+      · simp [lookup, h2]
+    · simp only [h, if_false, lookup]
+      by_cases h2 : k' = n
+      · subst h2; simp [Ne.symm h]
+      · simp [h2, ih]
+
 theorem filterMap_congr_mem {α β : Type} (f g : α → Option β) (l : List α) (h : ∀ x ∈ l, f x = g x) :
     l.filterMap f = l.filterMap g := by
   induction l with
@@ -256,7 +273,8 @@ theorem popAll_eq (db : Box S V) (ns : List String) (hnd : ns.Nodup) (hin : ∀ 
     have hin' : ∀ m ∈ rest, m ∈ keys (delKey db n) := by
       intro m hm
       rw [keys_delKey]
-      exact List.mem_filter.mpr ⟨hin m (List.mem_cons_of_mem _ hm), by simp [fun e : m = n => hnd.1 (e ▸ hm)]⟩
+      have hne : m ≠ n := fun e => hnd.1 (e ▸ hm)
+      exact List.mem_filter.mpr ⟨hin m (List.mem_cons_of_mem _ hm), by simp [hne]⟩
     rw [ih (delKey db n) hnd.2 hin']
     simp only [bind, Except.bind, pure, Except.pure, List.filterMap_cons, hv]
     congr 2
@@ -288,33 +306,6 @@ theorem assignAll_fresh (db : Box S V) (l : List (String × Item S V)) (hnd : (k
       · exact hf q (List.mem_cons_of_mem _ hq) hm
       · exact hnd.1 (hm ▸ List.mem_map_of_mem (f := (·.1)) hq)
 
-theorem lookup_assignAll_mem (db : Box S V) (l : List (String × Item S V)) (hnd : (keys l).Nodup) (k : String) (v : Item S V)
-    (h : (k, v) ∈ l) : lookup (assignAll db l) k = some v := by
-  unfold assignAll
-  induction l generalizing db with
-  | nil => simp at h
-  | cons p rest ih =>
-    simp only [keys, List.map_cons, List.nodup_cons] at hnd
-    simp only [List.foldl_cons]
-    rcases List.mem_cons.mp h with h | h
-    · subst h
-      have : ∀ (acc : Box S V), lookup acc k = some v →
-          lookup (rest.foldl (fun acc p => setKey acc p.1 p.2) acc) k = some v := by
-        intro acc hacc
-        induction rest generalizing acc with
-        | nil => exact hacc
-        | cons q qs ihq =>
-          simp only [List.foldl_cons]
-          apply ihq
-          · intro hm; exact hnd.1 (List.mem_cons_of_mem _ hm)
-          · simp only [List.map_cons, List.nodup_cons] at hnd ⊢; exact hnd.2.2
-          · intro _ hq; exact absurd hq (by
-              intro hq'; exact hnd.1 (by simpa using List.mem_cons_of_mem _ (List.mem_map_of_mem (f := (·.1)) hq')))
-          · rw [lookup_setKey, if_neg]; exact hacc
-            intro e; exact hnd.1 (by simp [e])
-      exact this _ (by simp [lookup_setKey])
-    · exact ih _ hnd.2 h
-
 theorem lookup_assignAll_other (db : Box S V) (l : List (String × Item S V)) (k : String) (h : k ∉ keys l) :
     lookup (assignAll db l) k = lookup db k := by
   unfold assignAll
@@ -324,6 +315,20 @@ theorem lookup_assignAll_other (db : Box S V) (l : List (String × Item S V)) (k
     simp only [keys, List.map_cons, List.mem_cons, not_or] at h
     simp only [List.foldl_cons]
     rw [ih _ (by simpa [keys] using h.2), lookup_setKey, if_neg (Ne.symm h.1)]
+
+theorem lookup_assignAll_mem (db : Box S V) (l : List (String × Item S V)) (hnd : (keys l).Nodup) (k : String) (v : Item S V)
+    (h : (k, v) ∈ l) : lookup (assignAll db l) k = some v := by
+  induction l generalizing db with
+  | nil => simp at h
+  | cons p rest ih =>
+    simp only [keys, List.map_cons, List.nodup_cons] at hnd
+    have e : assignAll db (p :: rest) = assignAll (setKey db p.1 p.2) rest := rfl
+    rw [e]
+    rcases List.mem_cons.mp h with h | h
+    · subst h
+      rw [lookup_assignAll_other _ _ _ (by simpa [keys] using hnd.1), lookup_setKey]
+      simp
+    · exact ih _ (by simpa [keys] using hnd.2) h
 
 theorem zip_values (db : Box S V) (pairs : List (String × String)) (hin : ∀ p ∈ pairs, p.1 ∈ keys db) :
     (pairs.map (·.2)).zip ((pairs.map (·.1)).filterMap (lookup db))
@@ -401,23 +406,6 @@ theorem renamePairs_simultaneous (db : Box S V) (pairs : List (String × String)
 
 end
 
-
-theorem lookup_setKey {α : Type} (db : List (String × α)) (k n : String) (v : α) :
-    lookup (setKey db k v) n = if k = n then some v else lookup db n := by
-  induction db with
-  | nil => simp [setKey, lookup]
-  | cons p rest ih =>
-    obtain ⟨k', v'⟩ := p
-    unfold setKey
-    by_cases h : k' = k
-    · subst h
-      by_cases h2 : k' = n
-      · simp [lookup, h2]
-      · simp [lookup, h2]
-    · simp only [h, if_false, lookup]
-      by_cases h2 : k' = n
-      · subst h2; simp [Ne.symm h]
-      · simp [h2, ih]
 
 theorem lookup_delKey_self {α : Type} (db : List (String × α)) (k : String) : lookup (delKey db k) k = none := by
   unfold delKey
